@@ -40,8 +40,21 @@ def neg(s):
     return ('not', s)
 
 
+def ev_value(s, env):
+    if s[0] == 'c':
+        return 'const%d' % s[1]          # different constants denote different values
+    if s[0] == 'u':
+        return env[s[1]]
+    raise Unmodelled('value shape %r' % (s,))
+
+
 def ev_shape(s, env):
     k = s[0]
+    if k == 'distinct':
+        vals = [ev_value(x, env) for x in s[1:]]
+        return len(set(vals)) == len(vals)
+    if k == 'eq' and s[1][0] in ('c', 'u'):
+        return ev_value(s[1], env) == ev_value(s[2], env)
     if k == 'T':
         return True
     if k == 'F':
@@ -72,6 +85,10 @@ def show(s):
         return s[1] if s[2] else '(not %s)' % s[1]
     if k == 'undef':
         return 'PTRef_Undef'
+    if k == 'c':
+        return 'c%d' % s[1]
+    if k == 'u':
+        return s[1]
     return '(%s %s)' % (k, ' '.join(show(x) for x in s[1:]))
 
 
@@ -85,9 +102,10 @@ class Interp:
 
     SYM_GETTERS = {'getSym_xor': 'xor', 'getSym_not': 'not', 'getSym_and': 'and', 'getSym_or': 'or', 'getSym_eq': 'eq', 'getSym_ite': 'ite'}
 
-    def __init__(self, fx, func, default_op, ctor_eval):
+    def __init__(self, fx, func, default_op, ctor_eval, value_mode=False):
         self.fx, self.f, self.default_op, self.ctor_eval = fx, func, default_op, ctor_eval
         self.steps = 0
+        self.value_mode = value_mode      # arguments are terms of an uninterpreted value sort, not Booleans
 
     order = {'x': 0, 'y': 1, 'z': 2}
 
@@ -99,6 +117,10 @@ class Interp:
             return -1
         if shape[0] == 'v':
             return self.order[shape[1]]
+        if shape[0] == 'c':
+            return self.order.get('c%d' % shape[1], shape[1])
+        if shape[0] == 'u':
+            return self.order.get(shape[1], 20 + ord(shape[1][0]))
         return 10
 
     # ---------- entry
@@ -117,6 +139,25 @@ class Interp:
         except Ret as r:
             return r.v
         raise Unmodelled('%s: falls off the end' % self.f['name'])
+
+    def call_lambda(self, lid, argvals):
+        lam = self.f.get('lambdas', [])[lid]
+        names = []
+        for n in __import__('facts').walk(lam['body']):
+            if n.get('k') == 'ref' and n.get('d') == 'param' and n['n'] not in names and n['n'] not in [p['n'] for p in self.f['params']]:
+                names.append(n['n'])
+        if len(names) != len(argvals):
+            raise Unmodelled('lambda with %d parameter name(s) called with %d argument(s)' % (len(names), len(argvals)))
+        saved = dict(self.env)
+        for k_, v_ in zip(names, argvals):
+            self.env[k_] = v_
+        try:
+            self.block(lam['body'])
+        except Ret as r:
+            self.env = saved
+            return r.v
+        self.env = saved
+        return None
 
     # ---------- statements
     def block(self, st):
@@ -336,13 +377,32 @@ class Interp:
                 return ('pterm', v[1])
             raise Unmodelled('getPterm of a non-negation at line %s' % e.get('ln'))
         if m == 'hasSortBool':
-            return True
+            return not self.value_mode
         if m == 'isConstant':
-            return self.val(args[0]) in (T, F)
+            v = self.val(args[0])
+            return v in (T, F) or v[0] == 'c'
         if m in ('getSortRef', 'getSort_bool'):
             return 'BoolSort'
-        if m in ('termSort', 'printf', 'capacity'):
+        if m == 'termSort':
+            lst = self.val(args[0])
+            if isinstance(lst, list):
+                lst.sort(key=self.rank)
             return None
+        if m in ('printf', 'capacity'):
+            return None
+        if callee(e) in ('std::all_of', 'std::any_of', 'std::none_of'):
+            it0 = self.val(args[0])
+            lam = see_through(args[2])
+            if isinstance(it0, tuple) and it0[0] == 'iter' and isinstance(lam, dict) and lam.get('k') == 'lambda':
+                res_ = [self.call_lambda(lam['id'], [x]) for x in it0[3]]
+                return {'std::all_of': all, 'std::any_of': any, 'std::none_of': lambda r: not any(r)}[callee(e)](res_)
+            raise Unmodelled('%s at line %s' % (callee(e), e.get('ln')))
+        if e.get('recv') is not None and (path_of(e['recv']) or '') == 'this.term_store':
+            # past all simplifications: the constructor builds the plain application
+            if m == 'lookupSymbol' and len(args) >= 2:
+                lst = self.val(args[1])
+                raise Ret((self.default_op,) + tuple(lst))
+            raise Unmodelled('term store call %s at line %s' % (m, e.get('ln')))
         if m in self.SYM_GETTERS:
             return ('sym', self.SYM_GETTERS[m])
         if m == 'has':
@@ -434,6 +494,42 @@ def check_nary(fx, func, name, ctor_eval, max_len=3):
                 for vals in itertools.product([False, True], repeat=3):
                     env = dict(zip('xyz', vals))
                     if ev_shape(out, env) != bool(sem([ev_shape(s_, env) for s_ in combo])):
+                        wrong = env
+                        break
+                if wrong:
+                    bad.append((combo, out, wrong))
+                    break
+    return n, bad
+
+
+VSHAPES = [('c', 0), ('c', 1), ('u', 'u'), ('u', 'v')]
+
+
+def check_distinct(fx, func, ctor_eval, max_len=4):
+    """mkDistinct on arguments of a value sort: constants c0, c1 (different values) and variables u, v over a three-element domain plus the constants' values"""
+    bad = []
+    n = 0
+    dom = ['const0', 'const1', 'other']
+    for ln in range(0, max_len + 1):
+        for combo in itertools.product(VSHAPES, repeat=ln):
+            for order in ({'c0': 0, 'c1': 1, 'u': 2, 'v': 3}, {'u': 0, 'c1': 1, 'v': 2, 'c0': 3}):
+                n += 1
+                it = Interp(fx, func, 'distinct', ctor_eval, value_mode=True)
+                it.order = order
+                try:
+                    out = it.run(list(combo))
+                except Thrown:
+                    bad.append((combo, UNDEF, 'throws'))
+                    break
+                if out == UNDEF or not isinstance(out, tuple):
+                    bad.append((combo, UNDEF, 'returns no term'))
+                    break
+                wrong = None
+                for uv in itertools.product(dom, repeat=2):
+                    env = {'u': uv[0], 'v': uv[1]}
+                    vals = [ev_value(s_, env) for s_ in combo]
+                    want = len(set(vals)) == len(vals)
+                    if ev_shape(out, env) != want:
                         wrong = env
                         break
                 if wrong:
